@@ -45,10 +45,11 @@ func genSignRoundTrip(ctx *Ctx, emit func(Case)) {
 		lens = append(lens, smallLen(r))
 	}
 	if ctx.Quick {
-		lens = append(lens, mib, mib+1)
+		lens = append(lens, mib, mib, mib+1, mib+1)
 	} else {
 		lens = append(lens, boundaryLens...)
 		lens = append(lens, boundaryLens...)
+		lens = append(lens, mib)
 	}
 	for k, n := range lens {
 		v := saltpack.Version{Major: 1 + k%2, Minor: 0}
